@@ -222,6 +222,19 @@ def fam_truncation(rng):
     return out
 
 
+def fam_trunc_race(rng):
+    """Balance queries that start in the middle of a truncation (they block on the book lock until it is done)."""
+    out = []
+    for depth in (1, 2):
+        for at in (1, 2, 3, 5):
+            out.append(("drain", depth, [G(), P("N1", "t1", 2), P("N1", "t2", 3), P("N1", "t3", 4), P("N1", "t6", 5),
+                                         {"op": "truncate", "n": "N1", "at": at}, P("N1", "t5", 6), {"op": "truncate", "n": "N1", "at": at},
+                                         {"op": "truncate", "n": "N1", "at": at + 1}]))
+            out.append(("single", depth, [G(), P("N1", "t1", 2), P("N1", "t3", 3), P("N1", "t4", 4), P("N1", "t5", 5),
+                                          {"op": "truncate", "n": "N1", "at": at}, {"op": "truncate", "n": "N1", "at": at}]))
+    return out
+
+
 def fam_drain(rng):
     """Wallets that are drained to exactly zero between truncations."""
     out = []
@@ -411,7 +424,7 @@ def fam_canon(rng):
 # ------------------------------------------------------------------------------------------
 # property table
 
-ALL_EVENTS = ["Reset", "Genesis", "ProposePre", "ProposeCommit", "Craft", "DeliverPre", "DeliverCommit",
+ALL_EVENTS = ["BalanceRaced", "Reset", "Genesis", "ProposePre", "ProposeCommit", "Craft", "DeliverPre", "DeliverCommit",
               "TickPop", "Truncate", "Trust", "Untrust", "Balance", "ReadTrx", "ReadVertex", "Load", "Compare",
               "Wedged"]
 
@@ -445,7 +458,7 @@ PROPS = {
 }
 
 FAMS = {
-    "truncation": lambda rng, tier: fam_truncation(rng) + fam_drain(rng),
+    "truncation": lambda rng, tier: fam_truncation(rng) + fam_drain(rng) + fam_trunc_race(rng),
     "concurrent": lambda rng, tier: fam_concurrent(rng),
     "orphans": lambda rng, tier: fam_orphans(rng, 120 if tier == "thorough" else 30),
     "load": lambda rng, tier: fam_load(rng),
